@@ -561,6 +561,24 @@ def _run_string(ctx, case, tree, text, want, problems, r_call):
         th = getattr(f, 'thickness', None)
         if th is None or not ctx.close(th, want['amount'], rel=REL, name='thickness.relerr'):
             problems.append('string form: thickness %r, stated layers add up to %r m' % (th, want['amount']))
+    # the mixture through ordinary Python protocols (copy, deepcopy, pickle): the same material, with the recorded amount
+    if not problems and len(text) % 3 == 0:
+        import copy
+        import pickle
+        for how, clone in (('copy.copy', copy.copy), ('copy.deepcopy', copy.deepcopy),
+                           ('pickle round trip', lambda x: pickle.loads(pickle.dumps(x)))):
+            ctx.count('clones.' + how.split('.')[-1].split(' ')[0])
+            g = clone(f)
+            sub = []
+            compare_model(ctx, g, want, tree, '%s of the string form' % how, sub)
+            attr = {'mass': 'total_mass', 'layer': 'thickness'}.get(mode)
+            if attr and not sub:
+                ctx.evaluated(what='clone-' + attr)
+                v = getattr(g, attr, None)
+                if v is None or not ctx.close(v, want['amount'], rel=REL):
+                    sub.append('%s of the string form: %s is %r, the original records %r'
+                               % (how, attr, v, getattr(f, attr, None)))
+            problems.extend(sub[:1])
     return f
 
 
